@@ -83,6 +83,14 @@ func (vc *VC) newEval(fn *ssa.Function, cur, old Heap, li *loopInfo) *Eval {
 		ev.env[p.Name()] = EVal{T: p.Type(), Terms: vc.val(p)}
 	}
 	for _, p := range fn.FreeVars {
+		// a captured variable: go/ssa passes the address of its cell; the name denotes the cell's content
+		if pt, isP := p.Type().Underlying().(*types.Pointer); isP {
+			if t := vc.val(p); len(t) == 1 {
+				ad := ptrAddr(t[0])
+				ev.env[p.Name()] = EVal{T: pt.Elem(), Addr: &ad}
+				continue
+			}
+		}
 		ev.env[p.Name()] = EVal{T: p.Type(), Terms: vc.val(p)}
 	}
 	res := fn.Signature.Results()
@@ -184,6 +192,19 @@ func (vc *VC) resolveLocalAtBlock(ev *Eval, name string, blk *ssa.BasicBlock) (E
 			pt := a.Type().Underlying().(*types.Pointer)
 			ad := ptrAddr(vc.val(a)[0])
 			return ev.localCellValue(pt.Elem(), ad), true
+		}
+	}
+	// a variable of the enclosing function captured by this function literal: go/ssa passes the address
+	// of the variable's cell as a free variable
+	for _, fv := range vc.fn.FreeVars {
+		if fv.Name() != name {
+			continue
+		}
+		if pt, isP := fv.Type().Underlying().(*types.Pointer); isP {
+			if _, have := vc.vals[fv]; have {
+				ad := ptrAddr(vc.val(fv)[0])
+				return ev.localCellValue(pt.Elem(), ad), true
+			}
 		}
 	}
 	var best *ssa.DebugRef
@@ -817,6 +838,15 @@ func (ev *Eval) global(alias, name string) (EVal, bool) {
 	vc := ev.vc
 	var pkgs []*ssa.Package
 	if alias == "" {
+		// the package of the contract being evaluated first (a callee's contract names the constants
+		// of the callee's package), then the package of the function under verification
+		if ev.pkgPath != "" {
+			for _, p := range vc.P.Prog.AllPackages() {
+				if p.Pkg.Path() == ev.pkgPath {
+					pkgs = append(pkgs, p)
+				}
+			}
+		}
 		if vc.fn.Pkg != nil {
 			pkgs = append(pkgs, vc.fn.Pkg)
 		}
@@ -1242,6 +1272,24 @@ func (ev *Eval) callExpr(c *ECall) (EVal, error) {
 			}
 		}
 		return bval(and(cs...)), nil
+	case "float64", "trunc":
+		// float64(n): the conversion of an integer; trunc(f): Go's int(f) conversion of a float
+		// (both uninterpreted, the same symbols the translation of the code uses)
+		a, err := arg(0)
+		if err != nil {
+			return EVal{}, err
+		}
+		t := ev.rv(a)
+		if len(t) != 1 {
+			return EVal{}, fmt.Errorf("%s() of a composite value", c.Fn)
+		}
+		if c.Fn == "float64" {
+			if a.T != nil && isFloat(a.T) {
+				return a, nil
+			}
+			return EVal{T: types.Typ[types.Float64], Terms: []string{"(f64_of_int " + t[0] + ")"}}, nil
+		}
+		return ival("(int_of_f64 " + t[0] + ")"), nil
 	case "min", "max":
 		a, err := arg(0)
 		if err != nil {
@@ -1368,6 +1416,8 @@ func (ev *Eval) callExpr(c *ECall) (EVal, error) {
 			return EVal{T: types.NewInterfaceType(nil, nil), Terms: []string{t}}, nil
 		case "Ptr":
 			return EVal{T: types.Typ[types.UnsafePointer], Terms: []string{t}}, nil
+		case "F64":
+			return EVal{T: types.Typ[types.Float64], Terms: []string{t}}, nil
 		}
 		return ival(t), nil
 	}
